@@ -1,7 +1,7 @@
 (* Extraction of the executable models and specifications for the correspondence check.
    Only standard-library extraction directives are used (listed in DESIGN.md section 8). *)
 From Coq Require Import ZArith Extraction ExtrOcamlBasic ExtrOcamlZBigInt ExtrOcamlNatBigInt ExtrOcamlString.
-From BU Require Import Lib.Bytes Model.Varint Spec.CompactSize Model.Script Spec.Opcodes Spec.ScriptSpec Model.Seq Spec.BIP68 Crypto.Sha256 Model.Tx Spec.Consensus Model.Sighash Spec.SighashSpec.
+From BU Require Import Lib.Bytes Model.Varint Spec.CompactSize Model.Script Spec.Opcodes Spec.ScriptSpec Model.Seq Spec.BIP68 Crypto.Sha256 Model.Tx Spec.Consensus Model.Sighash Spec.SighashSpec Model.Block.
 Extraction Language OCaml.
 (* The only directives of our own (trusted base, DESIGN.md section 8): bitwise operations on Z are
    mapped to zarith's, as ExtrOcamlZBigInt already does for shifts. *)
@@ -15,5 +15,6 @@ Extraction "model.ml"
   mk_sequence for_input_sequence for_script locktime_for_transaction bip112_ok bip68_units enforces_locktime signals_rbf le_bytes le_val
   sha256 sha256d tx_serialize tx_to_bytes tx_from_raw get_txid get_wtxid get_size get_vsize tx_copy
   legacy_preimage segwit_preimage taproot_digest str_bytes spec_legacy_preimage bip143_preimage taproot_sighash
+  header_from_raw serialize_header get_block_hash get_target get_transaction_length block_from_raw
   spec_serialize spec_serialize_stripped spec_txid spec_wtxid spec_vsize
   consensus_opcodes spec_assoc spec_assemble spec_disassemble spec_scriptnum scriptnum_decode_minimal.
